@@ -19,6 +19,8 @@ import tempfile
 import numpy as np
 import torch
 
+TMP_ROOT = None  # set by the driver BEFORE forking workers: every np_chunks directory lives below it and the
+#                  driver removes it in a finally (so nothing is left behind when workers are terminated)
 CLASS_NAME = {"bottomup": "BottomUpDataset", "centered": "CenteredInstanceDataset",
               "centroid": "CentroidDataset", "single": "SingleInstanceDataset"}
 ATOL = 1e-6
@@ -250,7 +252,7 @@ class Session:
     def __init__(self, cfg, lab, hw=(40, 48), channels=1, seed=0):
         self.cfg, self.lab = cfg, lab
         self.built = Built(lab, hw=hw, channels=channels, seed=seed)
-        self.tmp = tempfile.mkdtemp(prefix="verif_c11_") if cfg["chunks"] else None
+        self.tmp = tempfile.mkdtemp(prefix="verif_c11_", dir=TMP_ROOT) if cfg["chunks"] else None
         self.ds, self.snap0, self.last = None, None, None
 
     def close(self):
